@@ -281,6 +281,7 @@ func (r *recordIter) setIntColumnMeta(timeColVals *record.ColVal, idx int, rec *
 	colIndex = -1
 	lastIndex, firstIndex, minIndex, maxIndex = -1, -1, -1, -1
 	firstInit := false
+	var lastTime int64 // time of the last row that has a value in this column
 	for index, timeCol := range timeCols {
 		if colVals.IsNil(index) {
 			nilCount += 1
@@ -314,9 +315,10 @@ func (r *recordIter) setIntColumnMeta(timeColVals *record.ColVal, idx int, rec *
 
 		sumV += cols[index-nilCount]
 		lastIndex = colIndex
+		lastTime = timeCol
 	}
 
-	rec.ColMeta[idx].SetLast(cols[lastIndex], timeCols[len(timeCols)-1])
+	rec.ColMeta[idx].SetLast(cols[lastIndex], lastTime)
 	rec.ColMeta[idx].SetMin(minV, minVTime)
 	rec.ColMeta[idx].SetMax(maxV, maxVTime)
 	rec.ColMeta[idx].SetCount(countV)
@@ -346,6 +348,7 @@ func (r *recordIter) setBoolColumnMeta(timeColVals *record.ColVal, idx int, rec 
 	countV = 0
 	colIndex = -1
 	firstInit := false
+	var lastTime int64 // time of the last row that has a value in this column
 	for index, timeCol := range timeCols {
 		if colVals.IsNil(index) {
 			nilCount += 1
@@ -376,9 +379,10 @@ func (r *recordIter) setBoolColumnMeta(timeColVals *record.ColVal, idx int, rec 
 			maxIndex = index
 		}
 		lastIndex = colIndex
+		lastTime = timeCol
 	}
 
-	rec.ColMeta[idx].SetLast(cols[lastIndex], timeCols[len(timeCols)-1])
+	rec.ColMeta[idx].SetLast(cols[lastIndex], lastTime)
 	rec.ColMeta[idx].SetMin(minV, minVTime)
 	rec.ColMeta[idx].SetMax(maxV, maxVTime)
 	rec.ColMeta[idx].SetCount(countV)
@@ -407,6 +411,7 @@ func (r *recordIter) setFloatColumnMeta(timeColVals *record.ColVal, idx int, rec
 	sumV = 0
 	countV = 0
 	firstInit := false
+	var lastTime int64 // time of the last row that has a value in this column
 	for index, timeCol := range timeCols {
 		if colVals.IsNil(index) {
 			nilCount += 1
@@ -439,9 +444,10 @@ func (r *recordIter) setFloatColumnMeta(timeColVals *record.ColVal, idx int, rec
 
 		sumV += cols[index-nilCount]
 		lastIndex = colIndex
+		lastTime = timeCol
 	}
 
-	rec.ColMeta[idx].SetLast(cols[lastIndex], timeCols[len(timeCols)-1])
+	rec.ColMeta[idx].SetLast(cols[lastIndex], lastTime)
 	rec.ColMeta[idx].SetMin(minV, minVTime)
 	rec.ColMeta[idx].SetMax(maxV, maxVTime)
 	rec.ColMeta[idx].SetCount(countV)
@@ -468,6 +474,7 @@ func (r *recordIter) setStringColumnMeta(timeColVals *record.ColVal, idx int, re
 	lastIndex, firstIndex = -1, -1
 	var countV int64
 	countV = 0
+	var lastTime int64 // time of the last row that has a value in this column
 	for index, timeCol := range timeCols {
 		if colVals.IsNil(index) {
 			nilCount += 1
@@ -481,9 +488,10 @@ func (r *recordIter) setStringColumnMeta(timeColVals *record.ColVal, idx int, re
 		}
 
 		lastIndex = colIndex
+		lastTime = timeCol
 	}
 
-	rec.ColMeta[idx].SetLast(cols[lastIndex], timeCols[len(timeCols)-1])
+	rec.ColMeta[idx].SetLast(cols[lastIndex], lastTime)
 	rec.ColMeta[idx].SetCount(countV)
 	setColValInAux(timeColVals, idx, ops, rec, -1, firstIndex, -1, lastIndex)
 }
